@@ -1029,6 +1029,11 @@ def sc_nested(tree, rng, max_depth):
         else:
             H.attrs["intent"] = vg.legal()
         H.attrs["arg"] = "h"
+        if kind == "ref-to-illegal" and rng.random() < 0.3:
+            # a second element with the same arg name LATER in the scope: the reference still means the first one (and its illegal value)
+            later = [p for p in operand_paths(tree, ap) if p > hp and not is_prefix(hp, p) and "arg" not in node_at(tree, p).attrs and "intent" not in node_at(tree, p).attrs]
+            if later:
+                node_at(tree, rng.choice(later)).attrs["arg"] = "h"
         others = label_args(tree, ap, rng, kmax=2, used={"h"}, avoid=[hp]) if rng.random() < 0.6 else {}
         name = rng.choice(MADE_UP)
         refs = ["$h"] + ["$" + k for k in others]
